@@ -351,5 +351,63 @@ pub fn builder(args: &[String]) -> Result<JValue> {
     });
     match r { Ok(Ok(None)) => {}, Ok(Ok(Some(w))) => failures.push(json!({"case": "two-operand generated methods", "what": w})), Ok(Err(e)) => failures.push(json!({"case": "two-operand generated methods", "what": format!("error: {e:#}")})), Err(_) => failures.push(json!({"case": "two-operand generated methods", "what": "panic"})) }
     failures.truncate(8);
+    // locals of every value type (both reference types included), created in several orders, some unused, parameters of mixed types with
+    // one of them unused: every used local has a slot of its own, of its own type; parameter i is slot i
+    for variant in 0..6usize {
+        checked += 1;
+        let r = std::panic::catch_unwind(move || typed_locals_case(variant));
+        let name = format!("typed-locals-{variant}");
+        match r { Ok(Ok(None)) => {}, Ok(Ok(Some(w))) => failures.push(json!({"case": name, "what": w})), Ok(Err(e)) => failures.push(json!({"case": name, "what": format!("error: {e:#}")})), Err(_) => failures.push(json!({"case": name, "what": "panic while building / emitting"})) }
+    }
     Ok(json!({"violated": !failures.is_empty(), "cases_checked": checked, "failures": failures}))
+}
+
+
+fn typed_locals_case(variant: usize) -> Result<Option<String>> {
+    use walrus::RefType;
+    let tys = [ValType::I32, ValType::I64, ValType::F32, ValType::F64, ValType::V128, ValType::Ref(RefType::Funcref), ValType::Ref(RefType::Externref)];
+    let wp = |t: ValType| -> wasmparser::ValType { match t {
+        ValType::I32 => wasmparser::ValType::I32, ValType::I64 => wasmparser::ValType::I64, ValType::F32 => wasmparser::ValType::F32, ValType::F64 => wasmparser::ValType::F64,
+        ValType::V128 => wasmparser::ValType::V128, ValType::Ref(RefType::Funcref) => wasmparser::ValType::FUNCREF, ValType::Ref(_) => wasmparser::ValType::EXTERNREF } };
+    let mut module = Module::with_config(ModuleConfig::new());
+    // 14 body locals (two per type) + 3 parameters; creation order depends on the variant
+    let mut want: Vec<ValType> = vec![];
+    for k in 0..14 { want.push(tys[(k + variant) % 7]); }
+    let param_tys = [tys[(1 + variant) % 7], tys[(6 + variant) % 7], tys[(2 + variant) % 7]];
+    let mut order: Vec<usize> = (0..17).collect();           // 0..14 body locals, 14..17 parameters
+    match variant % 3 { 1 => order.reverse(), 2 => order.rotate_left(5), _ => {} }
+    let mut ids: Vec<Option<LocalId>> = vec![None; 17];
+    for k in order { ids[k] = Some(module.locals.add(if k < 14 { want[k] } else { param_tys[k - 14] })); }
+    let ids: Vec<LocalId> = ids.into_iter().map(|x| x.unwrap()).collect();
+    let mut fb = FunctionBuilder::new(&mut module.types, &param_tys, &[]);
+    // used: every body local except #3 and #10 (skipped), parameters 0 and 2 (parameter 1 is never read)
+    let mut seq: Vec<usize> = (0..14).filter(|k| *k != 3 && *k != 10).collect();
+    if variant >= 3 { seq.reverse(); }
+    seq.insert(2, 14); seq.push(16);
+    {
+        let mut b = fb.func_body();
+        for k in &seq { b.local_get(ids[*k]).local_set(ids[*k]); }
+    }
+    let f = fb.finish(vec![ids[14], ids[15], ids[16]], &mut module.funcs);
+    module.exports.add("f", f);
+    let wasm = module.emit_wasm();
+    let mut feats = wasmparser::WasmFeatures::default();
+    feats.insert(wasmparser::WasmFeatures::REFERENCE_TYPES | wasmparser::WasmFeatures::SIMD);
+    if let Err(e) = wasmparser::Validator::new_with_features(feats).validate_all(&wasm) { return Ok(Some(format!("emitted module does not validate: {e}"))); }
+    let (decl, ops) = decode(&wasm)?;
+    let slot_ty = |i: u32| -> Option<wasmparser::ValType> { let mut base = 3u32; for (n, t) in &decl { if i >= base && i < base + n { return Some(*t); } base += n; } None };
+    let total: u32 = decl.iter().map(|(n, _)| *n).sum();
+    if total as usize != 12 { return Ok(Some(format!("12 non-parameter locals are used but {total} are declared ({decl:?})"))); }
+    let mut seen: Vec<(u32, usize)> = vec![];
+    for (j, k) in seq.iter().enumerate() {
+        let (g, st) = (&ops[2 * j], &ops[2 * j + 1]);
+        let i: u32 = match g.strip_prefix("local.get ") { Some(x) => x.parse()?, None => return Ok(Some(format!("operator {} of the body is {g}, not a local.get", 2 * j))) };
+        if *st != format!("local.set {i}") { return Ok(Some(format!("local.get {i} is followed by {st}"))); }
+        if *k >= 14 { if i as usize != *k - 14 { return Ok(Some(format!("parameter {} is read at index {i}", *k - 14))); } continue; }
+        if i < 3 { return Ok(Some(format!("body local #{k} shares the slot of parameter {i}"))); }
+        if slot_ty(i) != Some(wp(want[*k])) { return Ok(Some(format!("body local #{k} of type {:?} sits in slot {i} declared as {:?} (declarations {decl:?})", want[*k], slot_ty(i)))); }
+        if let Some((_, other)) = seen.iter().find(|(s, _)| *s == i) { return Ok(Some(format!("body locals #{k} and #{other} share slot {i}"))); }
+        seen.push((i, *k));
+    }
+    Ok(None)
 }
